@@ -38,6 +38,7 @@ struct Raw {
     /// per definition: references (file,line,start)
     refs: BTreeMap<DefK, Vec<(String, usize, usize)>>,
     defs: Vec<(DefK, bool, bool, u8, Option<String>, Option<usize>)>, // key, third_party, plugin, scope, ret, yield
+    autouse: BTreeSet<DefK>,
     usages: Vec<(String, usize, usize, usize, String)>,
     goto_usage: BTreeMap<(String, usize, usize), Option<DefK>>,
     available: BTreeMap<String, Vec<(DefK, bool, bool)>>,
@@ -133,9 +134,11 @@ impl Scenario for Static {
         }
     }
     fn runs(&self, tier: Tier) -> u64 {
-        match tier {
-            Tier::Quick => 2_500,
-            Tier::Thorough => 80_000,
+        match (self.variant, tier) {
+            ("corpus", Tier::Quick) => 40,
+            ("corpus", Tier::Thorough) => 1_500,
+            (_, Tier::Quick) => 2_500,
+            (_, Tier::Thorough) => 80_000,
         }
     }
     fn shrink_paths(&self) -> Vec<&'static str> {
@@ -145,7 +148,13 @@ impl Scenario for Static {
     fn gen(&self, run_seed: u64, tier: Tier) -> Value {
         let mut rng = Rng::new(run_seed);
         let o = opts_for(self.prop, self.variant, &mut rng, tier);
-        let mut spec = if self.prop == "C14" && rng.chance(100) { super::ws::ring_ws(&mut rng) } else { gen_ws(&mut rng, &o) };
+        let mut spec = if self.variant == "corpus" {
+            super::ws::corpus_spec()
+        } else if self.prop == "C14" && rng.chance(120) {
+            if rng.chance(600) { super::ws::ring_ws(&mut rng) } else { super::ws::diamond_ws(&mut rng) }
+        } else {
+            gen_ws(&mut rng, &o)
+        };
         if self.prop == "C05" {
             // a parameterless probe test at the end of every test file: completion inside its
             // parentheses offers every visible fixture
@@ -225,6 +234,9 @@ fn collect(prop: &str, db: &std::sync::Arc<crate::fixtures::FixtureDatabase>, ro
     let defs = all_defs(db);
     for d in &defs {
         r.defs.push((dkey(root, d), d.is_third_party, d.is_plugin, d.scope as u8, d.return_type.clone(), d.yield_line));
+        if d.autouse {
+            r.autouse.insert(dkey(root, d));
+        }
     }
     let usages = all_usages(db);
     for u in &usages {
@@ -511,7 +523,8 @@ fn oracle_c04(out: &mut RunOut, model: &Model, raw: &Raw) {
         let dk = &d.0;
         let n = raw.refs.get(dk).map(|r| r.len()).unwrap_or(0);
         let listed = raw.unused.iter().any(|(f, nm)| *f == dk.0 && *nm == dk.2);
-        let autouse = model.defs.iter().find(|m| m.file == dk.0 && m.line == dk.1).map(|m| m.autouse).unwrap_or(false);
+        // generated workspaces: the generator's ground truth; verbatim corpus files: the index's own flag
+        let autouse = model.defs.iter().find(|m| m.file == dk.0 && m.line == dk.1).map(|m| m.autouse).unwrap_or_else(|| raw.autouse.contains(dk));
         let same_file_same_name = raw.defs.iter().filter(|x| x.0 .0 == dk.0 && x.0 .2 == dk.2).count() > 1;
         if same_file_same_name {
             continue; // the CLI keys its counts by (file, name)
